@@ -74,7 +74,7 @@ CLAIMED = {
             "interrupts are injected through the production AtomicBool by hook H2; network/reader latency is not modelled",
             "DESIGN.md §6 C08"),
     "C09": (MC, "TLC: JsonSession.tla (reader/channel/worker, OneResponsePerRequest + liveness); TLC-enumerated and simulated request histories replayed into real sessions",
-            "every history over a 65-symbol request alphabet (every REPL command, load requests, byte ranges that do not fit their text, multi-byte characters around the command name) up to the exhaustive bound (2 quick; 2 over everything and 3 over the 40 state-changing symbols thorough) plus simulated histories of length 5-6 is replayed: one admissible answer per request, in order, the session still answers afterwards, and it ends only by `:quit` (spec action Quit: status 0, everything before it answered)",
+            "every history over a 65-symbol request alphabet (every REPL command, load requests, byte ranges that do not fit their text, multi-byte characters around the command name) up to the exhaustive bound (2 quick; 2 over everything and 3 over 27 state-changing symbols thorough) plus simulated histories of length 5-6 is replayed: one admissible answer per request, in order, the session still answers afterwards, and it ends only by `:quit` (spec action Quit: status 0, everything before it answered)",
             "answer kinds are deliberately loose; `interrupt` requests (answered out of band by the reader) are outside the alphabet",
             "DESIGN.md §6 C09"),
     "C10": (MC, "TLC: Session.tla AbortIsClean with Abort enabled in every stopped state; real sessions aborted at depth x blocks x pending values x trailing statements compared with a fresh session",
